@@ -399,8 +399,9 @@ def mk_end_state(name, icode_twin=None, params=None, mutant=None):
             side = [g for g in conf.groups if g.titratable and g.atom.type == 'atom' and g.residue_type not in ('N+', 'C-')]
             for ga in [g for g in side if g.type in ACIDS]:
                 for gb in [g for g in side if g.type in BASES]:
-                    va = [d.value for d in ga.determinants['coulomb'] if d.label == gb.label]
-                    vb = [d.value for d in gb.determinants['coulomb'] if d.label == ga.label]
+                    # partner matched by object, not by label (labels of insertion-coded twins coincide: finding F5)
+                    va = [d.value for d in ga.determinants['coulomb'] if d.group is gb]
+                    vb = [d.value for d in gb.determinants['coulomb'] if d.group is ga]
                     if va or vb:
                         ctx.claim('acid-base-pair-equal-and-opposite', eq(sum(va, 0) + sum(vb, 0), 0),
                                   detail='conformation %s: %s <- %s %r, %s <- %s %r' % (cname, ga.label, gb.label, va, gb.label, ga.label, vb))
